@@ -53,7 +53,7 @@ CHECKS = {
     ),
     "C08": (
         "exhaustive tag-universe grid + Hypothesis specs/compressed tag sets against a rule predicate over a packaging-decided interpreter grid",
-        "45 requires_python shapes (incl. upper-bound-first spellings, unions of two and of three or more ranges one branch of which ends exactly on a tag's X.Y) x 5 implementation/gil settings x every single (python, abi) tag of the stated universe (170 python tags x ~14 ABIs incl. flag combinations m/d/u/t/td, prefix look-alikes such as cp31/cp312, pypy/pyston ABIs) decided exhaustively, plus generated requires_python texts with compressed tag sets; verdict and the first three score components must equal the statement's rule evaluated on the dense interpreter grid X.Y.Z (Z<=40), and wheel_compatibility() on the corresponding file name (with and without a build tag) must return what compatibility() returns.",
+        "48 requires_python shapes (incl. upper-bound-first spellings, unions of two and of three or more ranges one branch of which ends exactly on a tag's X.Y) x 5 implementation/gil settings x every single (python, abi) tag of the stated universe (170 python tags x ~14 ABIs incl. flag combinations m/d/u/t/td, prefix look-alikes such as cp31/cp312, pypy/pyston ABIs) decided exhaustively, plus generated requires_python texts with compressed tag sets; verdict and the first three score components must equal the statement's rule evaluated on the dense interpreter grid X.Y.Z (Z<=40), and wheel_compatibility() on the corresponding file name (with and without a build tag) must return what compatibility() returns.",
         "Which interpreters requires_python admits is decided by packaging.SpecifierSet, not by dep-logic; specs whose answer depends on pre-releases of the next series (interval reading vs. final interpreters) and empty specs refused by from_spec are skipped and counted.",
         "DESIGN.md §5 C08",
     ),
